@@ -34,6 +34,8 @@ var c12Names = []string{"t.html", "t.html.twig", "t.js", "t.js.twig", "t.css", "
 	"a.b/c", "dir.d/page", "t.HTML", "t.json", "t.txt.twig", "app.min.js", "app.bundle.js.twig", "theme.dark.css", "notes.2024.txt.twig", "v1.2/page", "lib.js/readme",
 	// file names with characters that also occur in delimiters: still file names
 	"sale-50%.js", "my%20script.js.twig", "theme{dark}.css", "terms-100%.txt", "a{b.js", "c}}d.css", "#notes.txt", "50%{x}.html_attr",
+	// path elements that spell an extension are no extension: an extension follows the last dot of the name
+	"mail/welcome/txt", "widgets/js", "assets/css/main", "js", "txt", "to/url", "x/html_attr/y", "pages/txt/home.html", "a/js.twig", ".js", "dir/.css", "t.js/", "t.txt/x",
 	"inline:plain", "inline:dot", "inline:dotmid", "inline:ends-txt", "inline:ends-js", "inline:ends-css-twig"}
 
 var c12Payloads = []string{
@@ -41,7 +43,7 @@ var c12Payloads = []string{
 	"<>\"'&", "%3C+~", "{{ 7 }}{% if %}",
 }
 
-var c12Wrappers = []string{"plain", "safe-same", "safe-other", "safe-nested-other", "safe-other-with-a-derived-value-safe-for-this-type", "named-int-with-String", "named-bool-with-String", "named-float-with-String", "struct-with-String", "slice-with-String", "map-with-String", "safe-for-no-type", "pointer-to-slice-with-String"}
+var c12Wrappers = []string{"plain", "safe-same", "safe-other", "safe-nested-other", "safe-other-with-a-derived-value-safe-for-this-type", "named-int-with-String", "named-bool-with-String", "named-float-with-String", "struct-with-String", "slice-with-String", "map-with-String", "safe-for-no-type", "pointer-to-slice-with-String", "stringer-that-answers-differently-the-second-time"}
 
 var escFns = map[string]func(string) string{"html": escape.HTML, "html_attr": escape.HTMLAttribute, "js": escape.JS, "css": escape.CSS, "url": escape.URLQueryParam}
 
@@ -250,8 +252,12 @@ var c12Constructs = []c12construct{
 		if expectedType(m) == "" {
 			return one(m, "[2:{{ x }}]", c12site{id: "2", direct: true})
 		}
-		return one(m, "[1:{{ x|escape(own) }}][2:{{ x }}][3:{{ x|escape(strat) }}][4:{{ x|escape(strat)|upper }}]",
-			c12site{id: "1", direct: true}, c12site{id: "2", direct: true}, c12site{id: "3", direct: false}, c12site{id: "4", direct: false})
+		// ... and what the explicit filter itself returns for the template's own type (seen through raw) is the value
+		// escaped once, whichever Go type carries the strategy's name: a string, a defined string type, a Stringer,
+		// a string marked safe
+		return one(m, "[1:{{ x|escape(own) }}][2:{{ x }}][3:{{ x|escape(strat) }}][4:{{ x|escape(strat)|upper }}][5:{{ x|escape(own)|raw }}][6:{{ x|escape(ownT)|raw }}][7:{{ x|escape(ownS)|raw }}][8:{{ x|escape(own|raw)|raw }}]",
+			c12site{id: "1", direct: true}, c12site{id: "2", direct: true}, c12site{id: "3", direct: false}, c12site{id: "4", direct: false},
+			c12site{id: "5", direct: true}, c12site{id: "6", direct: true}, c12site{id: "7", direct: true}, c12site{id: "8", direct: true})
 	}},
 }
 
@@ -562,8 +568,13 @@ func (p *c12) Run(i int) (res fw.Result) {
 			case 12:
 				gen.KindText = payload
 				x = &gen.KindSlice{3}
+			case 13:
+				// every answer of the value is data: whichever of them is printed is escaped (which answer a
+				// construct prints is not pinned: only the safety of the whole output is looked at)
+				x = &gen.Changing{Text: payload}
 			}
-			ctx := map[string]stick.Value{"x": x, "t": true, "f": false, "arr": []stick.Value{x, x}, "hash": map[string]stick.Value{"k": x}, "own": mainType, "strat": "nosuchstrategy"}
+			changing := wi == 13
+			ctx := map[string]stick.Value{"x": x, "t": true, "f": false, "arr": []stick.Value{x, x}, "hash": map[string]stick.Value{"k": x}, "own": mainType, "ownT": gen.KeyStr(mainType), "ownS": gen.ValStringer{S: mainType}, "strat": "nosuchstrategy"}
 			var buf bytes.Buffer
 			mon.BeginExec()
 			var err error
@@ -605,7 +616,7 @@ func (p *c12) Run(i int) (res fw.Result) {
 				if want != val {
 					significant = true
 				}
-				if !s.direct {
+				if !s.direct || changing {
 					continue
 				}
 				re := regexp.MustCompile(`\[` + s.id + `:([^\]]*)\]`)
